@@ -5,6 +5,7 @@ CLASS = 'C'
 CRATE = 'vibesql-storage'
 MODULE = 'btree::serialize::verif_kani_varint'
 UNWIND = 4
+HARNESS_FILE = 'kani/storage/varint.rs'
 DOC = 'read_varint(write_varint(x)) == x for all usize with exact consumption; reader total on arbitrary bytes (loop bounded by operand width, unwinding assertions on)'
 FUNCTIONS = [
     dict(file='crates/vibesql-storage/src/btree/serialize.rs', path='fn write_varint'),
